@@ -73,7 +73,15 @@ func VerifC03_LoginCompletes() {
 	vn.Assume(!now3.Before(now2))
 	vn.Assume(now3.Before(env.idp.idExp.Truncate(time.Second)))
 	if body.expKind == 2 {
-		vn.Assume(now3.Before(now2.Add(time.Duration(body.expiresIn)*time.Second - 5*time.Second)))
+		// "while those tokens remain valid": the service may count a token as expired up to five
+		// seconds early (its allowance for the time the retrieval took), but never so early that a
+		// token the provider has just issued (expires_in >= 1) is unusable at once -- the browser
+		// that follows the callback's redirect within half a second is answered OK, otherwise a
+		// short-lived token means a redirect loop
+		immediately := now3.Before(now2.Add(500 * time.Millisecond))
+		withinLifetime := now3.Before(now2.Add(time.Duration(body.expiresIn)*time.Second - 5*time.Second))
+		vn.Assume(vn.Or(immediately, withinLifetime))
+		vn.Cover("C03/short-lived-token-used-at-once", vn.And(immediately, body.expiresIn <= 5))
 	}
 	env.now = now3
 	resp3 := &envoy.CheckResponse{}
